@@ -216,6 +216,9 @@ func (r *RefDB) Step(o Op, now int64) (ok bool) {
 		if _, live := ix.Vecs[o.ID]; live {
 			return false
 		}
+		if Unserialisable(o.M) {
+			return false
+		}
 		v := o.V
 		if len(v) == 0 {
 			if ix.dim() == 0 {
@@ -266,6 +269,9 @@ func (r *RefDB) Step(o Op, now int64) (ok bool) {
 		}
 		seen := map[string]bool{}
 		for _, it := range o.Items {
+			if o.K == VAddBatch && Unserialisable(it.M) {
+				return false
+			}
 			if _, live := ix.Vecs[it.ID]; live || seen[it.ID] {
 				return false
 			}
